@@ -20,6 +20,7 @@ import (
 	"io"
 	"os"
 	"path/filepath"
+	"runtime"
 	"sort"
 	"strconv"
 	"strings"
@@ -36,9 +37,10 @@ import (
 )
 
 const (
-	idxName   = "c18idx"
-	hostDir   = "verifnode.verifnode"
-	segmetaFn = "ingestnodes/" + hostDir + "/segmeta.json"
+	chartSpanMs = 60000
+	idxName     = "c18idx"
+	hostDir     = "verifnode.verifnode"
+	segmetaFn   = "ingestnodes/" + hostDir + "/segmeta.json"
 )
 
 // segFile is one file (or, for the shared segmeta.json, the line) that belongs to the damaged segment.
@@ -49,6 +51,9 @@ type segFile struct {
 	Off  int    // offset of the region inside the file (segmeta.json: start of the segment's line)
 	Data []byte // pristine bytes of the region
 	CRC  uint32
+	// NoTrunc: the region is a line in the middle of a shared file; cutting the file there would
+	// also remove other segments' lines, so only byte modifications are enumerated
+	NoTrunc bool
 }
 
 type querySpec struct {
@@ -83,6 +88,9 @@ type envT struct {
 	byRel    map[string]*segFile
 	queries  []querySpec
 	base     []*answer
+	// unstable[query][column]: the value differs between two fresh servers on the SAME undamaged
+	// files (or is known to: the sort-index path sometimes returns timestamp 0) - not compared
+	unstable map[string]map[string]bool
 	err      error
 	startDur time.Duration
 }
@@ -191,13 +199,32 @@ func querySet(dmgNum map[int64]int64, dmgGrp map[int64]string) []querySpec {
 	if thr == nums[len(nums)-1] {
 		thr = nums[0]
 	}
+	// a second grp value and a second threshold for filters that were NOT run before the ingest:
+	// no persistent-query results exist for them, so they go through the micro indexes (.cmi:
+	// bloom for grp, range index for num) and the raw column search
+	g2 := ""
+	for _, v := range vids {
+		if dmgGrp[v] != dmgGrp[vids[0]] {
+			g2 = dmgGrp[v]
+			break
+		}
+	}
+	if g2 == "" {
+		g2 = dmgGrp[vids[0]]
+	}
+	thr2 := nums[len(nums)/3]
 	return []querySpec{
 		{"matchall", "*"},
 		{"filter_eq", "grp=" + dmgGrp[vids[0]]},
 		{"filter_range", fmt.Sprintf("num>%d", thr)},
-		{"stats_by", "* | stats count, sum(num), min(num), max(num) by seg, grp"},
-		{"stats_all", "* | stats count, sum(num), min(num), max(num)"},
+		{"filter_cmi_eq", "grp=" + g2},
+		{"filter_cmi_range", fmt.Sprintf("num<=%d", thr2)},
+		// run with GOMAXPROCS=1: the searcher reads the sort index only when the command chain
+		// is not parallelised (one chain per CPU otherwise)
 		{"sort", "* | sort num"},
+		{"timechart", "* | timechart span=1m count"},
+		{"stats_all", "* | stats count, sum(num), min(num), max(num)"},
+		{"stats_by", "* | stats count, sum(num), min(num), max(num) by seg, grp"},
 		// answered from the star tree (.strl/.strm) when the segment has one; the reader clears a
 		// 300 MB buffer per query, so this one is run for a part of the faults only (runsTree)
 		{"stats_tree", "* | stats count, sum(num), min(num), max(num) by seg"},
@@ -498,8 +525,8 @@ func (e *envT) ingest() error {
 	// persistent-query results (.pqmr) and a star tree (.strl/.strm) for them in every new segment
 	for i := 0; i < 2; i++ {
 		for _, q := range querySet(dn, dg) {
-			if q.Name == "stats_by" {
-				continue // stays a group-by that has to read the column files
+			if q.Name == "stats_by" || strings.HasPrefix(q.Name, "filter_cmi") {
+				continue // stay queries that have to read the micro indexes / column files
 			}
 			if _, err := c.Search(sut.Query{Index: idxName, Text: q.Text, Start: lo - 1, End: hi + 1, Size: 500}); err != nil {
 				return fmt.Errorf("pre-query %q: %v", q.Text, err)
@@ -639,6 +666,43 @@ func (e *envT) adopt() error {
 		return fmt.Errorf("baseline match-all / sort return %d / %d of %d events", len(res[0].Recs), len(res[5].Recs), len(ma.Recs))
 	}
 	e.base = res
+	// the originals must not depend on the run: ask two more fresh servers and stop comparing
+	// whatever differs on undamaged files
+	e.unstable = map[string]map[string]bool{"sort": {"timestamp": true}}
+	for i := 0; i < 2; i++ {
+		if err := e.restore(); err != nil {
+			return err
+		}
+		again, _, err := e.runQueries(60*time.Second, true)
+		if err != nil {
+			return fmt.Errorf("baseline re-run: %v", err)
+		}
+		for qi, q := range e.queries {
+			a, b := again[qi], e.base[qi]
+			if len(a.Recs) != len(b.Recs) || len(a.Buckets) != len(b.Buckets) {
+				return fmt.Errorf("query %q answers differently on the same undamaged files (%d/%d events, %d/%d groups)", q.Text, len(a.Recs), len(b.Recs), len(a.Buckets), len(b.Buckets))
+			}
+			for vid, r := range b.Recs {
+				ar, ok := a.Recs[vid]
+				if !ok {
+					return fmt.Errorf("query %q answers differently on the same undamaged files (_vid=%d)", q.Text, vid)
+				}
+				for col, v := range r {
+					if ar[col] != v {
+						if e.unstable[q.Name] == nil {
+							e.unstable[q.Name] = map[string]bool{}
+						}
+						e.unstable[q.Name][col] = true
+					}
+				}
+			}
+			for key, m := range b.Buckets {
+				if !sameBucket(a.Buckets[key], m) {
+					return fmt.Errorf("query %q answers differently on the same undamaged files (group %q)", q.Text, key)
+				}
+			}
+		}
+	}
 	return e.restore()
 }
 
@@ -706,9 +770,19 @@ func (e *envT) runQueries(timeout time.Duration, withTree bool) ([]*answer, *run
 			continue
 		}
 		info.Step = q.Name
+		if q.Name == "sort" {
+			if err := c.Set("gomaxprocs", 1); err != nil {
+				return out, info, &transportErr{err: err, detail: detailOf(c, err)}
+			}
+		}
 		sr, err := c.Search(sut.Query{Index: idxName, Text: q.Text, Start: e.lo, End: e.hi, Size: 500})
 		if err != nil {
 			return out, info, &transportErr{err: err, detail: detailOf(c, err)}
+		}
+		if q.Name == "sort" {
+			if err := c.Set("gomaxprocs", int64(runtime.NumCPU())); err != nil {
+				return out, info, &transportErr{err: err, detail: detailOf(c, err)}
+			}
 		}
 		out[i] = toAnswer(sr)
 	}
